@@ -1150,7 +1150,8 @@ def all_transforms():
     t = [None]
     t += [("s", a) for a in F2]
     t += [("xy", a, d) for a in F2 for d in F2 if a != d]
-    t += [("2x2", a, b, c, d) for a in F2 for b in F2 for c in F2 for d in F2]
+    # off-diagonal terms may be zero one at a time (a 2x2 needs only one of them)
+    t += [("2x2", a, b, c, d) for a in F2 for b in F2 + (0.0,) for c in F2 + (0.0,) for d in F2 if b or c]
     return t
 
 
@@ -1171,7 +1172,7 @@ def t_matrix(t):
 
 def comp_family_size(fam, tier):
     if fam == "xy-transform":
-        return 25 * 26 + 625 * 5 if tier == "quick" else 25 * len(TRANSFORMS)
+        return 25 * 26 + (len(TRANSFORMS) - 26) * 5 if tier == "quick" else 25 * len(TRANSFORMS)
     if fam == "flags":
         return 16 * 3 * 2 * len(T_REPS) * 3
     if fam == "anchors":
@@ -1290,8 +1291,8 @@ def f2dot14(v):
 class GlyfCompositeUnit(Unit):
     name = "glyf-composite"
     rule = ("composite glyphs over fixed base glyphs (4-point, 2-contour, 260-point): (xy-transform) offsets {-129,-128,0,127,128}^2 x "
-            "every transform none / scale / x-y scale / 2x2 over F2Dot14 edge values {-2,-1,0.5,1,1.99994} (quick: 2x2 on the offset "
-            "diagonal only); (flags) all 16 subsets of USE_MY_METRICS/ROUND_XY_TO_GRID/OVERLAP_COMPOUND/NON_OVERLAPPING x offset mode "
+            "every transform none / scale / x-y scale / 2x2 over F2Dot14 edge values {-2,-1,0.5,1,1.99994} (2x2 off-diagonals also 0, one "
+            "at a time; quick: 2x2 on the offset diagonal only); (flags) all 16 subsets of USE_MY_METRICS/ROUND_XY_TO_GRID/OVERLAP_COMPOUND/NON_OVERLAPPING x offset mode "
             "default/SCALED/UNSCALED x instructions x 4 transforms x 3 offsets; (anchors) point-matching args (0,0),(2,3),(3,1),"
             "(255,255),(256,0),(0,256),(259,259); (multi) 3 components in all byte/word/transform orders; oracle: reloaded "
             "components == input, struct reader decodes the same flags/glyph ids/args/F2Dot14 matrices, HarfBuzz draws the outline "
@@ -1738,7 +1739,7 @@ class KernUnit(Unit):
             "{-32768,-1,0,1,32767,-40}, in Microsoft (version 0) and Apple (version 1.0, tupleIndex) headers, one and two subtables, "
             "coverage bytes {1,3,0x81 (apple 0x80)}; large families nPairs in {10919..10922} (uint16 length overflow at 10921) and "
             "{16383,16384,16385} (searchRange overflow), thorough: 65535; oracle: decompiled pair dict == input, struct reader sees "
-            "the same pairs sorted by (left,right) with the spec's searchRange/entrySelector/rangeShift (mod 2^16), HarfBuzz applies "
+            "the same pairs sorted by (left,right) with the spec's searchRange/entrySelector/rangeShift (where they fit uint16), HarfBuzz applies "
             "the pair value when shaping; distinct = each kern table")
     required_witnesses = ("empty pair set", "value -32768", "value 32767", "two subtables", "apple header", "length field overflow (> 10920 pairs)",
                           "searchRange overflow (>= 16384 pairs)", "pairs re-sorted")
@@ -1834,8 +1835,10 @@ class KernUnit(Unit):
                 continue
             n = len(want)
             sf = R.search_fields(n, 6)
-            if n and rs["search"] != tuple(v & 0xFFFF for v in sf):
-                rec.violation("kern:reader:search-fields:" + cls, "searchRange/entrySelector/rangeShift %r, spec %r (mod 2^16)" % (rs["search"], sf))
+            if n and max(sf) > 0xFFFF:
+                rec.count("search fields exceed uint16 (unspecified, not compared)")
+            elif n and rs["search"] != sf:
+                rec.violation("kern:reader:search-fields:" + cls, "searchRange/entrySelector/rangeShift %r, spec %r" % (rs["search"], sf))
             if apple and rs["tupleIndex"] != i:
                 rec.violation("kern:reader:tupleIndex", "tupleIndex %r" % rs["tupleIndex"])
             if not apple and n <= 10920 and rs["length"] != 14 + 6 * n:
@@ -3149,6 +3152,11 @@ def colr_specs(depth):
             for b in reps_all:
                 cur.append(["Y", [a, b]])
                 cur.append(["Y", [b, a, a]])
+        if d >= 2:
+            # layers inside layers (the builder may nest, the unbuilder flattens)
+            for a in reps_prev:
+                cur.append(["Y", [["Y", [["L", 0], ["L", 4]]], a]])
+                cur.append(["Y", [a, ["Y", [["L", 1], a]], ["L", 0]]])
         levels.append(cur)
     for lv in levels:
         for t in lv:
